@@ -41,6 +41,9 @@ structure Item where
   id : Nat
   /-- encoded size in bytes -/
   size : Nat
+  /-- length of the prefix of the encoding that the receiver's deserializer reads (smaller than `size`
+  when the sender's version of the type has trailing fields the receiver does not know) -/
+  need : Nat := size
   /-- number of channel halves embedded in the value -/
   halves : Nat := 0
   /-- the serializer fails after having written this many bytes -/
@@ -54,7 +57,8 @@ inductive PMsg where
   /-- a complete data message: the encoding of `it` -/
   | msg (it : Item)
   /-- `n` bytes of a message whose transmission was abandoned (no `last` frame).  `whole = some it`:
-  the bytes already are the complete encoding of `it` (only the end-of-message is missing).
+  the bytes already contain everything the receiver's deserializer reads of `it` (at least the
+  end-of-message is missing).
   `derr`: the receiver's deserializer thread fails on these bytes and the receiver looks at its
   result before it notices the abort. -/
   | partialMsg (whole : Option Item) (n : Nat) (derr : Bool)
@@ -140,7 +144,7 @@ def avail (it : Item) : Nat :=
 deserializer thread is done with these bytes (it has its item, or has failed) before the receiver
 notices the abort — a race in the real code, resolved here when the token is created. -/
 def abandoned (it : Item) (n : Nat) (early : Bool) : PMsg :=
-  .partialMsg (if early ∧ it.size ≤ min n (avail it) then some it else none) (min n (avail it)) (early && it.deFail)
+  .partialMsg (if early ∧ it.need ≤ min n (avail it) then some it else none) (min n (avail it)) (early && it.deFail)
 
 /-- the port-request phase after the complete data message -/
 def portsPhase (it : Item) (ab : Abort) : List PMsg × SendRes :=
